@@ -461,6 +461,10 @@ func (db *RockDB) ZRem(ts int64, key []byte, members ...[]byte) (int64, error) {
 	if err != nil {
 		return 0, err
 	}
+	if keyInfo.IsNotExistOrExpired() {
+		// an expired sorted set is dead, nothing can be removed from it
+		return 0, nil
+	}
 	table := keyInfo.Table
 
 	wb := db.wb
